@@ -1187,7 +1187,7 @@ class CodeBuilder:
                     name=fname,
                     metadata=metadata,
                 ),
-                could_be_none=False,
+                could_be_none=not could_be_none,
                 no_copy_collections=self.get_dialect_or_config_option(
                     "no_copy_collections", ()
                 ),
